@@ -17,7 +17,7 @@ import fieldutil as F
 import implutil as U
 
 STATIC = ["Model/Esc.vo"]
-EXTRA_PROPS = ["RK"]
+EXTRA_PROPS = ["RK", "C03b"]
 IMPORTS = "From SSP Require Import Model.Pk Model.Bins Model.Esc."
 
 
